@@ -15,7 +15,8 @@ let acn_op (args : string list) : string =
       | EvPage (cid, page, last, us) ->
         "p" ^ hex_of_bytes cid ^ "." ^ ni page ^ "." ^ ni last ^ "." ^ String.concat "_" (List.map ni us)
       | EvRdm133 (seq, ep, d) -> "r" ^ string_of_n seq ^ "." ^ ni ep ^ "." ^ hex_of_bytes d
-      | EvLlrp (cid, tn, d) -> "l" ^ hex_of_bytes cid ^ "." ^ string_of_n tn ^ "." ^ hex_of_bytes d in
+      | EvLlrp (cid, tn, d) -> "l" ^ hex_of_bytes cid ^ "." ^ string_of_n tn ^ "." ^ hex_of_bytes d
+      | EvSrc l -> "s" ^ string_of_int (List.length l) ^ "." ^ hex_of_bytes l in
     (try List.iter (fun dg ->
       let buf, n = mkbuf (int_of_n aCN_MAX_DATAGRAM) (bytes_of_hex dg) in
       match run buf (acn_handle ign n !hs) with
@@ -27,7 +28,8 @@ let acn_op (args : string list) : string =
         t.cls <- (if List.exists (fun e -> match e with EvRdm133 _ -> true | _ -> false) evs then "e133"
                   else if List.exists (fun e -> match e with EvLlrp _ -> true | _ -> false) evs then "llrp"
                   else if List.exists (fun e -> match e with EvPage _ -> true | _ -> false) evs then "page"
-                  else if evs <> [] then "data" else if changed then "state" else "drop") :: t.cls;
+                  else if List.exists (fun e -> match e with AcnEvData _ -> true | _ -> false) evs then "data"
+                  else if evs <> [] then "dmp" else if changed then "state" else "drop") :: t.cls;
         let es = if evs = [] then "-" else String.concat "+" (List.map ev_s evs) in
         let src_s s = hex_of_bytes s.s_cid ^ "." ^ ni s.s_seq ^ "." ^ dbuf_s s.s_buf in
         let h_s h = "|u" ^ ni h.u_uni ^ ":" ^ dbuf_s h.u_buf ^ ":" ^ ni h.u_ap ^ ":" ^
